@@ -312,7 +312,11 @@ type Invocation struct {
 	Date    string   `json:"date,omitempty"`
 	DB      string   `json:"db,omitempty"`
 	Log     string   `json:"log,omitempty"`
+	Long    bool     `json:"long,omitempty"` // spell commands and flags in their long forms (register, --single-element, --begin, ...)
 }
+
+var longForms = map[string]string{"reg": "register", "bal": "balance", "-s": "--single-element", "-f": "--single-food", "-g": "--group-food",
+	"-c": "--collapse", "-b": "--begin", "-e": "--end", "-d": "--database", "-l": "--logfile"}
 
 // Argv builds the argument vector.
 func (iv Invocation) Argv() []string {
@@ -351,6 +355,13 @@ func (iv Invocation) Argv() []string {
 	}
 	if len(sh.Args) <= nCmd {
 		argv = append(argv, iv.Locals...)
+	}
+	if iv.Long {
+		for i := 1; i < len(argv); i++ {
+			if l, ok := longForms[argv[i]]; ok && argv[i] != iv.El && argv[i] != iv.Food && argv[i] != iv.Date {
+				argv[i] = l
+			}
+		}
 	}
 	return argv
 }
